@@ -645,6 +645,24 @@ func init() {
 	})
 }
 
+func init() {
+	// C19 — data races: the union of the other workloads under the race detector
+	register(&Property{ID: "C19", NoRerun: true,
+		Rule: "episodes of the API-fuzz mix (every other property's workload) executed in a -race build with >=1 context switch inside library code; distinct = schedule/program hash; a reported race counts when both racing accesses are in library code",
+		Gen: func(r *simrt.Rand, tier string) (Cfg, *Program) {
+			ids := []string{"C01", "C02", "C03", "C05", "C06", "C07", "C08", "C09", "C10", "C16", "C17", "C14", "C18", "C11", "C13", "C15"}
+			var cands []*Property
+			for _, id := range ids {
+				if p := properties[id]; p != nil && p.Gen != nil && p.Hook == nil {
+					cands = append(cands, p)
+				}
+			}
+			p := cands[r.Intn(len(cands))]
+			return p.Gen(r, tier)
+		},
+	})
+}
+
 // pseudo op kinds resolved by the generator
 const (
 	opWUFw            = opWUF
